@@ -1,3 +1,481 @@
-import Kurbo.Curve
+import Proofs.KDefs
+import Proofs.Lemmas.C01
+import Proofs.Lemmas.C01Real
+import Proofs.Lemmas.C01Curve
+/-! C01 – winding number and containment.
+
+    "For every closed Bezier path and every point that does not lie on the path, the reported winding number equals
+    the topological winding number of the path about that point (sign as for signed area), and `contains` is true
+    exactly when it is non-zero.  This holds equally for points that share a coordinate with a vertex, a segment end
+    point or a curve extremum.  Reversing the path negates the number, … and splitting segments leaves it unchanged."
+
+    The theorems are about the model functions `PathSeg.winding_inner`, `windingAtNearerEnd`, `PathSeg.winding`,
+    `pathWinding`, `pathContains` (`Kurbo/Curve.lean`) and `segs` (`Kurbo/Path.lean`) exactly as they are.
+
+    What is proved:
+    1. (any lawful scalar) `windingInner_line_eq_kc`: the line branch of `winding_inner`, the two x-extent early outs
+       included, is the signed half-open crossing indicator `kc (start − p) (end − p)` of the leftward ray
+       (`kc`/`kcr` in `Proofs/Lemmas/C01.lean`: `−1` iff `a.y ≤ 0 < b.y ∧ a×b ≤ 0`, `+1` iff `b.y ≤ 0 < a.y ∧ a×b ≥ 0`),
+       for EVERY segment and point (also points on the segment).  `winding_line`: `winding = winding_inner` on lines.
+    2. (any lawful scalar) `pathWinding_polyline_eq_crossings`: on element lists without `QuadTo`/`CurveTo`
+       `pathWinding` is the sum of the crossing indicators over `segs` (and panics exactly when `segs` does).
+       `pathWinding_append`: additivity over sub-paths.
+    3. (ℝ) `closedPolyline_winding_eq_angleSum`: for every list of closed polyline sub-paths (`ClosedPath`: each
+       sub-path `MoveTo p, LineTo…, ClosePath`, or `MoveTo p, LineTo…` returning to `p`; any number of sub-paths,
+       self-intersections, repeated vertices and zero-length edges allowed) and every `p` that lies on no edge
+       (`OffPath`: no segment's own `eval` takes the value `p` on `[0,1]`), the iterator does not panic and
+       `pathWinding els p = (1/2π)·Σ_edges arg((b − p)/(a − p))`, the angle-sum (topological) winding number.
+       Rows through vertices are INCLUDED: there is no genericity hypothesis.  `polygon_winding_eq_angleSum` is the
+       special case of one polygon `M v0 L v1 … L vn Z`, with the edge list written out.
+    4. (any lawful scalar) reversal: `kc_antisymm` (swapping the end points of an edge negates the indicator, for every
+       point, also on the edge), `winding_reverse_chain` (chain level), `winding_reverse_polyline` (element level:
+       `reverseSubpaths` of one closed polyline sub-path does not panic and negates `pathWinding`, for EVERY point).
+       Splitting: `winding_insert_vertex` (for `m = a + t(b − a)`, `t ∈ [0,1]`, the indicators of `a m` and `m b` add up
+       to that of `a b`, for EVERY point), `winding_split_line` (the same for the model's `Line.subsegment`).
+    5. (any `Scalar`, also `Float`) `pathContains_iff`, `winding_line`, `windingAtNearerEnd_cases`,
+       `pathWinding_eq_segSum`, `winding_eq_sum_pieces` (on a curved segment `winding` is the sum of `winding_inner`
+       over the sub-segments between consecutive extrema).
+    6. (any lawful scalar) curved pieces, ONE monotone piece at a time: `windingInner_offRow` (outside the half-open
+       row of its end points every kind of segment contributes 0), `windingInner_quad_monotone`,
+       `windingInner_cubic_monotone`: if `y(t)` is injective on `[0,1]` (e.g. strictly monotone), `tS ∈ [0,1]` is the
+       parameter with `y(tS) = p.y`, and the solver returns exactly the roots of the polynomial `y(t) − p.y` it is
+       handed (hypothesis `hsolve`, taken as a HYPOTHESIS here; it has literally the shape of the conclusions of
+       `solveQuadratic_spec`/`solveQuadratic_spec_real` and `solveCubic_mem_iff`/`solveCubic_of_c3_zero` of C15, whose
+       non-degeneracy side condition is `quad_row_poly_nonzero`), then the branch –
+       x-extent early outs and `firstInUnit` search included – returns `rowSign · [x(tS) ≤ p.x]`, i.e. it counts the
+       crossing of the leftward ray with the half-open rule.  (ℝ) `windingInner_quad_monotone_real`: under strict
+       monotonicity and `p.y` in the half-open row, such a `tS` exists (intermediate value theorem) and is unique.
+
+    What is NOT proved:
+    * Curved paths as a whole.  (6) characterises `winding_inner` on a single y-injective piece, under the solver
+      specification as a hypothesis.  NOT proved: that the pieces produced by `extrema_ranges`/`subsegment` in
+      `PathSeg.winding` are y-monotone and share end points exactly (so that the half-open rows tile); that the
+      crossing sum of a closed CURVED path equals its topological winding number (needs a homotopy to an inscribed
+      polygon); anything about the `windingAtNearerEnd` fallback beyond "returns `sign` or `0`" (under the hypotheses
+      of (6) it is unreachable; it matters only when the solver misses a root, i.e. under rounding).
+      Hence "equals the topological winding number" is established for closed POLYLINE paths only.
+    * `hsolve` for `solveCubic` is only known where C15 proves the cubic solver specification; the non-vacuity
+      examples below discharge `hsolve` over `Rat` for a quadratic and for a degree-raised quadratic (cubic with
+      vanishing leading coefficient), where the model's `Rat` square root is exact.
+    * The element-level reversal theorem is for ONE closed sub-path; for several sub-paths only the chain-level
+      statement plus additivity (`pathWinding_append`) is available.
+    * The affine law `w(A·P, A·p) = sgn(det A)·w(P, p)` is not proved.
+    * Everything in 1–4 and 6 is about exact (lawful) scalars; nothing is claimed about `Float` rounding (miscounts
+      on rows through end points/extrema of curved pieces are a known finding of the design round).
+    Helper lemmas: `Proofs/Lemmas/C01Arg.lean` (pure Mathlib: `phi`, `kcross`, `edge_angle`),
+    `Proofs/Lemmas/C01.lean`, `Proofs/Lemmas/C01Real.lean`, `Proofs/Lemmas/C01Curve.lean`. -/
+set_option linter.unusedSectionVars false
+
+/-! ## 5. structural facts (any `Scalar`, also `Float`) -/
 namespace Kurbo
+section anyScalar
+variable {K : Type} [Scalar K]
+
+theorem pathContains_iff (els : List (PathEl K)) (p : Point K) :
+    pathContains els p = (pathWinding els p).map (· != 0) := rfl
+
+/-- `winding` of a line is `winding_inner` (no splitting at extrema) -/
+theorem winding_line (l : Line K) (p : Point K) :
+    PathSeg.winding (.Line l) p = PathSeg.winding_inner (.Line l) p := rfl
+
+/-- the fallback returns `sign` or `0`, decided by the x-coordinate of the end point nearer in `y` -/
+theorem windingAtNearerEnd_cases (start «end» p : Point K) (sign : Int) :
+    windingAtNearerEnd start «end» p sign = sign ∨ windingAtNearerEnd start «end» p sign = 0 := by
+  unfold windingAtNearerEnd
+  dsimp only
+  split_ifs <;> first | exact Or.inl rfl | exact Or.inr rfl
+
+/-- `pathWinding` folds `+` from `0`: it is the sum of the segment windings, and `none` exactly when `segs` is -/
+theorem pathWinding_eq_segSum (els : List (PathEl K)) (p : Point K) :
+    pathWinding els p = (segs els).map fun ss => (ss.map fun s => s.winding p).sum :=
+  pathWinding_eq_sum els p
+
+/-- on a curved segment `winding` is the sum of `winding_inner` over the sub-segments between consecutive extrema -/
+theorem winding_eq_sum_pieces (s : PathSeg K) (p : Point K) (h : ¬ IsLineSeg s) :
+    s.winding p = (s.extrema_ranges.map fun r => (s.subsegment r).winding_inner p).sum := by
+  cases s with
+  | Line l => exact (h trivial).elim
+  | Quad q => simp only [PathSeg.winding, foldl_add_int, zero_add]
+  | Cubic c => simp only [PathSeg.winding, foldl_add_int, zero_add]
+
+end anyScalar
+end Kurbo
+
+/-! ## 1, 2, 4. crossings (any lawful scalar) -/
+namespace Kurbo
+section lawful
+variable {K : Type} [Field K] [LinearOrder K] [IsStrictOrderedRing K] [FloorRing K] [Scalar K] [LawfulScalar K]
+
+/-- **line branch = crossing indicator**, early outs included, for every segment and every point -/
+theorem windingInner_line_eq_kc (l : Line K) (p : Point K) :
+    PathSeg.winding_inner (.Line l) p = kc (l.p0 - p) (l.p1 - p) :=
+  windingInner_line_eq_kc' l p
+
+/-- the indicator written out: `−1` for an upward edge whose half-open row `[a.y, b.y)` contains the point and which
+    passes on or left of it, `+1` for a downward one, `0` otherwise -/
+theorem kc_def (a b : Vec2 K) :
+    kc a b =
+      if a.y < b.y then (if a.y ≤ 0 ∧ 0 < b.y ∧ a.x * b.y - a.y * b.x ≤ 0 then -1 else 0)
+      else if b.y < a.y then (if b.y ≤ 0 ∧ 0 < a.y ∧ 0 ≤ a.x * b.y - a.y * b.x then 1 else 0)
+      else 0 := rfl
+
+/-- **polylines**: `pathWinding` is the crossing sum over the segments -/
+theorem pathWinding_polyline_eq_crossings (els : List (PathEl K)) (h : AllLines els) (p : Point K) :
+    pathWinding els p = (segs els).map fun ss => (ss.map fun s => kc (s.start - p) (s.end - p)).sum := by
+  rw [pathWinding_eq_sum, segs_eq_segsFrom]
+  cases hss : segsFrom none els with
+  | none => rfl
+  | some ss =>
+    simp only [Option.map_some, Option.some.injEq]
+    exact windingSum_eq_crossSum ss (segsFrom_allLines els none ss h hss) p
+
+/-- additivity over sub-paths (any kinds of segments): if the second part starts a new sub-path (its segments do
+    not depend on the iterator state, e.g. it starts with `MoveTo`) the winding numbers add -/
+theorem pathWinding_append {els₁ els₂ : List (PathEl K)} (hi : ∀ st, segsFrom st els₂ = segsFrom none els₂)
+    (p : Point K) {w₁ w₂ : Int} (h1 : pathWinding els₁ p = some w₁) (h2 : pathWinding els₂ p = some w₂) :
+    pathWinding (els₁ ++ els₂) p = some (w₁ + w₂) := by
+  rw [pathWinding_eq_sum, segs_eq_segsFrom] at h1 h2 ⊢
+  rw [segsFrom_append_bind hi]
+  cases e1 : segsFrom none els₁ with
+  | none => rw [e1] at h1; cases h1
+  | some s1 =>
+    cases e2 : segsFrom none els₂ with
+    | none => rw [e2] at h2; cases h2
+    | some s2 =>
+      rw [e1] at h1; rw [e2] at h2
+      simp only [Option.map_some, Option.some.injEq, Option.bind_some] at h1 h2 ⊢
+      rw [List.map_append, List.sum_append, h1, h2]
+
+/-! ### reversal -/
+
+/-- swapping the end points of an edge negates its contribution – for every point, also one on the edge -/
+theorem kc_antisymm (a b : Vec2 K) : kc b a = - kc a b := kc_swap a b
+
+/-- chain level: reversing the order of the edges and each edge negates the crossing sum -/
+theorem winding_reverse_chain (ss : List (PathSeg K)) (p : Point K) :
+    ((ss.reverse.map PathSeg.reverse).map fun s => kc (s.start - p) (s.end - p)).sum
+      = - (ss.map fun s => kc (s.start - p) (s.end - p)).sum :=
+  crossSum_reverse ss p
+
+/-- element level: `reverse_subpaths` of one closed polyline sub-path `MoveTo p0, LineTo …, ClosePath` does not panic
+    and negates the winding number about EVERY point -/
+theorem winding_reverse_polyline (p0 : Point K) (body : List (PathEl K)) (hb : IsBody body) (hl : AllLines body)
+    (q : Point K) :
+    ∃ (r : List (PathEl K)) (w : Int), reverseSubpaths (.MoveTo p0 :: body ++ [PathEl.ClosePath]) = some r ∧
+      pathWinding (.MoveTo p0 :: body ++ [PathEl.ClosePath]) q = some w ∧ pathWinding r q = some (-w) := by
+  have hall : AllLines (.MoveTo p0 :: body ++ [PathEl.ClosePath]) := by
+    rw [List.cons_append, allLines_cons, allLines_append]
+    refine ⟨trivial, hl, ?_⟩
+    intro e he; simp only [List.mem_cons, List.not_mem_nil, or_false] at he; subst he; trivial
+  have hss := segsFrom_closed_subpath none p0 body hb
+  have hlines := segsFrom_allLines _ none _ hall hss
+  refine ⟨_, _, reverseSubpaths_closed_subpath p0 body hb, pathWinding_eq_crossSum hall hss q, ?_⟩
+  rw [pathWinding_eq_sum, segs_eq_segsFrom, segsFrom_reverse_closed none p0 body hb, Option.map_some]
+  have hlines' : ∀ s ∈ (bodySegs p0 body).reverse.map PathSeg.reverse ++ closeSegs p0 (bodyEnd p0 body),
+      IsLineSeg s := by
+    intro s hs
+    rcases List.mem_append.mp hs with hs | hs
+    · rw [List.mem_map] at hs
+      obtain ⟨s0, h0, rfl⟩ := hs
+      exact reverse_isLine (hlines s0 (List.mem_append_left _ (List.mem_reverse.mp h0)))
+    · exact closeSegs_isLine _ _ s hs
+  rw [windingSum_eq_crossSum _ hlines' q, closeSegs_swap, ← closeSegs_reverse (bodyEnd p0 body) p0,
+    crossSum_append, crossSum_reverse, crossSum_reverse, closeSegs_reverse, crossSum_append]
+  congr 1; ring
+
+/-! ### splitting -/
+
+/-- inserting a vertex `m = a + t·(b − a)`, `t ∈ [0,1]`, on an edge changes nothing – for EVERY query point -/
+theorem winding_insert_vertex (a b m p : Point K) (t : K) (h0 : 0 ≤ t) (h1 : t ≤ 1)
+    (hx : m.x = a.x + (b.x - a.x) * t) (hy : m.y = a.y + (b.y - a.y) * t) :
+    kc (a - p) (m - p) + kc (m - p) (b - p) = kc (a - p) (b - p) := by
+  unfold kc
+  simp only [vsub_x, vsub_y]
+  have h := kcr_split (a.x - p.x) (a.y - p.y) (b.x - p.x) (b.y - p.y) t h0 h1
+  have ex : m.x - p.x = a.x - p.x + (b.x - p.x - (a.x - p.x)) * t := by rw [hx]; ring
+  have ey : m.y - p.y = a.y - p.y + (b.y - p.y - (a.y - p.y)) * t := by rw [hy]; ring
+  rw [ex, ey]; exact h
+
+/-- the same for the model's own `Line.subsegment`: splitting a line at any `t ∈ [0,1]` keeps the winding number -/
+theorem winding_split_line (l : Line K) (t : K) (h0 : 0 ≤ t) (h1 : t ≤ 1) (p : Point K) :
+    PathSeg.winding (.Line (l.subsegment ⟨0, t⟩)) p + PathSeg.winding (.Line (l.subsegment ⟨t, 1⟩)) p
+      = PathSeg.winding (.Line l) p := by
+  rw [winding_line, winding_line, winding_line, windingInner_line_eq_kc, windingInner_line_eq_kc,
+    windingInner_line_eq_kc]
+  have e0 : (l.subsegment ⟨0, t⟩).p0 = l.p0 := by
+    cases l; rename_i a b; cases a; cases b; kring
+  have e1 : (l.subsegment ⟨t, 1⟩).p1 = l.p1 := by
+    cases l; rename_i a b; cases a; cases b; kring
+  have em : (l.subsegment ⟨0, t⟩).p1 = (l.subsegment ⟨t, 1⟩).p0 := rfl
+  rw [e0, e1, em]
+  refine winding_insert_vertex l.p0 l.p1 _ p t h0 h1 ?_ ?_
+  · kring
+  · kring
+
+end lawful
+end Kurbo
+
+/-! ## 3. closed polylines: ray casting = angle sum (ℝ) -/
+namespace Kurbo
+section real
+open Complex Real
+variable [Scalar ℝ] [LawfulScalar ℝ]
+
+/-- **C01 for closed polyline paths.**  Any number of closed sub-paths made of lines; `p` on no edge; rows through
+    vertices included.  `toC v = v.x + v.y·i`. -/
+theorem closedPolyline_winding_eq_angleSum {els : List (PathEl ℝ)} (hc : ClosedPath els) (hl : AllLines els)
+    (p : Point ℝ) (hoff : OffPath els p) :
+    ∃ (ss : List (PathSeg ℝ)) (w : Int), segs els = some ss ∧ pathWinding els p = some w ∧
+      (w : ℝ) = (1 / (2 * π)) * (ss.map fun s => arg (toC (s.end - p) / toC (s.start - p))).sum := by
+  obtain ⟨ss, hss, hcc⟩ := segsFrom_closedPath hc
+  have hsegs : segs els = some ss := by rw [segs_eq_segsFrom]; exact hss
+  have hlines := segsFrom_allLines els none ss hl hss
+  have hoff' : ∀ s ∈ ss, OffEdge s p := by
+    intro s hs
+    have h1 := hlines s hs
+    have h2 := hoff ss hsegs s hs
+    cases s with
+    | Line l => cases l; exact offEdge_of_not_onSeg _ _ p h2
+    | Quad q => exact h1.elim
+    | Cubic c => exact h1.elim
+  exact ⟨ss, crossSum ss p, hsegs, pathWinding_eq_crossSum hl hss p,
+    closedChains_crossSum_eq_angleSum hcc p hoff'⟩
+
+/-- one closed polygon `M v0 L v1 … L vn Z`, the edge list written out (`lineChain v0 [v1,…,vn]` is
+    `v0v1, v1v2, …`; the closing edge `vn v0` is present unless `vn = v0`) -/
+theorem polygon_winding_eq_angleSum (v0 : Point ℝ) (vs : List (Point ℝ)) (p : Point ℝ)
+    (hoff : OffPath (polygon v0 vs) p) :
+    ∃ w : Int, pathWinding (polygon v0 vs) p = some w ∧
+      (w : ℝ) = (1 / (2 * π)) *
+        ((lineChain v0 vs ++
+            (if (v0 :: vs).getLast (List.cons_ne_nil _ _) = v0 then []
+             else [PathSeg.Line ⟨(v0 :: vs).getLast (List.cons_ne_nil _ _), v0⟩])).map
+          fun s => arg (toC (s.end - p) / toC (s.start - p))).sum := by
+  obtain ⟨ss, w, hss, hw, h⟩ :=
+    closedPolyline_winding_eq_angleSum (closedPath_polygon v0 vs) (allLines_polygon v0 vs) p hoff
+  rw [segs_polygon, Option.some.injEq] at hss
+  subst hss
+  exact ⟨w, hw, h⟩
+
+/-- the geometric hypothesis implies the side conditions under which `arg((b−p)/(a−p))` is the signed angle
+    subtended by the edge (`≠ π`: the point is not between the end points) -/
+theorem offPath_sideConditions (a b p : Point ℝ) (h : ¬ OnSeg (.Line ⟨a, b⟩) p) :
+    toC (a - p) ≠ 0 ∧ toC (b - p) ≠ 0 ∧ arg (toC (b - p) / toC (a - p)) ≠ π :=
+  offEdge_of_not_onSeg a b p h
+
+end real
+end Kurbo
+
+/-! ## 6. curved pieces: the crossing rule on a piece that is injective in `y` -/
+namespace Kurbo
+section curves
+variable {K : Type} [Field K] [LinearOrder K] [IsStrictOrderedRing K] [FloorRing K] [Scalar K] [LawfulScalar K]
+
+/-- outside the half-open row `[min y, max y)` of its end points every kind of segment contributes `0` -/
+theorem windingInner_offRow (s : PathSeg K) (p : Point K)
+    (hup : ¬ (s.start.y ≤ p.y ∧ p.y < s.end.y)) (hdown : ¬ (s.end.y ≤ p.y ∧ p.y < s.start.y)) :
+    s.winding_inner p = 0 := by
+  unfold PathSeg.winding_inner
+  simp only [scalar_norm, decide_eq_true_eq, Bool.or_eq_true]
+  by_cases a1 : s.start.y < s.end.y
+  · have a2 : p.y < s.start.y ∨ s.end.y ≤ p.y := by
+      by_contra hh; push Not at hh; exact hup ⟨hh.1, hh.2⟩
+    simp only [a1, a2, if_true]
+  · by_cases a1' : s.end.y < s.start.y
+    · have a2 : p.y < s.end.y ∨ s.start.y ≤ p.y := by
+        by_contra hh; push Not at hh; exact hdown ⟨hh.1, hh.2⟩
+      simp only [a1, a1', a2, if_true, if_false]
+    · simp only [a1, a1', if_false]
+
+/-- **quadratic piece**: if the y-coordinate is injective on `[0,1]` (e.g. strictly monotone: the piece lies between
+    two extrema), `tS ∈ [0,1]` is the parameter with `y(tS) = p.y`, and `solveQuadratic` returns exactly the roots
+    of the polynomial `y(t) − p.y` it is handed (its specification – C15), then the branch returns the row sign
+    times the indicator "the curve point on the row is left of or at `p`".  `rowSign y0 y1 y` is `−1` for
+    `y0 ≤ y < y1`, `+1` for `y1 ≤ y < y0`, else `0`.  The x-extent early outs and the `firstInUnit` search are
+    covered; the `windingAtNearerEnd` fallback is not reached under these hypotheses. -/
+theorem windingInner_quad_monotone (q : QuadBez K) (p : Point K) (tS : K)
+    (hsolve : ∀ x : K, x ∈ solveQuadratic (q.p0.y - p.y) (2 * (q.p1.y - q.p0.y)) (q.p2.y - 2 * q.p1.y + q.p0.y) ↔
+        (q.p0.y - p.y) + (2 * (q.p1.y - q.p0.y)) * x + (q.p2.y - 2 * q.p1.y + q.p0.y) * x ^ 2 = 0)
+    (hinj : Set.InjOn (fun t => (q.eval t).y) (Set.Icc 0 1))
+    (h0 : 0 ≤ tS) (h1 : tS ≤ 1) (hy : (q.eval tS).y = p.y) :
+    PathSeg.winding_inner (.Quad q) p = rowSign q.p0.y q.p2.y p.y * (if (q.eval tS).x ≤ p.x then 1 else 0) :=
+  windingInner_quad_eq q p tS hsolve hinj h0 h1 hy
+
+/-- **cubic piece**, same statement with `solveCubic` -/
+theorem windingInner_cubic_monotone (c : CubicBez K) (p : Point K) (tS : K)
+    (hsolve : ∀ x : K, x ∈ solveCubic (c.p0.y - p.y) (3 * (c.p1.y - c.p0.y)) (3 * (c.p2.y - 2 * c.p1.y + c.p0.y))
+          (c.p3.y - 3 * c.p2.y + 3 * c.p1.y - c.p0.y) ↔
+        (c.p0.y - p.y) + (3 * (c.p1.y - c.p0.y)) * x + (3 * (c.p2.y - 2 * c.p1.y + c.p0.y)) * x ^ 2
+          + (c.p3.y - 3 * c.p2.y + 3 * c.p1.y - c.p0.y) * x ^ 3 = 0)
+    (hinj : Set.InjOn (fun t => (c.eval t).y) (Set.Icc 0 1))
+    (h0 : 0 ≤ tS) (h1 : tS ≤ 1) (hy : (c.eval tS).y = p.y) :
+    PathSeg.winding_inner (.Cubic c) p = rowSign c.p0.y c.p3.y p.y * (if (c.eval tS).x ≤ p.x then 1 else 0) :=
+  windingInner_cubic_eq c p tS hsolve hinj h0 h1 hy
+
+/-- when `p.y` is in the half-open row the polynomial handed to `solveQuadratic` is not identically zero – the
+    side condition under which C15 (`solveQuadratic_spec`, `solveQuadratic_spec_real`) proves `hsolve` -/
+theorem quad_row_poly_nonzero (q : QuadBez K) (p : Point K)
+    (hrow : q.p0.y ≤ p.y ∧ p.y < q.p2.y ∨ q.p2.y ≤ p.y ∧ p.y < q.p0.y) :
+    ¬ (q.p0.y - p.y = 0 ∧ 2 * (q.p1.y - q.p0.y) = 0 ∧ q.p2.y - 2 * q.p1.y + q.p0.y = 0) := by
+  rintro ⟨h0, h1, h2⟩
+  rcases hrow with h | h <;> linarith [h.1, h.2]
+
+end curves
+
+section curvesReal
+open Set
+variable [Scalar ℝ] [LawfulScalar ℝ]
+
+/-- (ℝ) on a strictly y-monotone quadratic piece whose half-open row contains `p.y` the root `tS` exists
+    (intermediate value theorem) and is unique, and the branch counts the crossing at `tS` -/
+theorem windingInner_quad_monotone_real (q : QuadBez ℝ) (p : Point ℝ)
+    (hsolve : ∀ x : ℝ, x ∈ solveQuadratic (q.p0.y - p.y) (2 * (q.p1.y - q.p0.y)) (q.p2.y - 2 * q.p1.y + q.p0.y) ↔
+        (q.p0.y - p.y) + (2 * (q.p1.y - q.p0.y)) * x + (q.p2.y - 2 * q.p1.y + q.p0.y) * x ^ 2 = 0)
+    (hmono : StrictMonoOn (fun t => (q.eval t).y) (Icc 0 1) ∨ StrictAntiOn (fun t => (q.eval t).y) (Icc 0 1))
+    (hrow : q.p0.y ≤ p.y ∧ p.y < q.p2.y ∨ q.p2.y ≤ p.y ∧ p.y < q.p0.y) :
+    ∃ tS : ℝ, 0 ≤ tS ∧ tS ≤ 1 ∧ (q.eval tS).y = p.y ∧ (∀ t, 0 ≤ t → t ≤ 1 → (q.eval t).y = p.y → t = tS) ∧
+      PathSeg.winding_inner (.Quad q) p
+        = (if q.p0.y < q.p2.y then -1 else 1) * (if (q.eval tS).x ≤ p.x then 1 else 0) := by
+  have hinj : InjOn (fun t => (q.eval t).y) (Icc 0 1) := by
+    rcases hmono with h | h
+    · exact h.injOn
+    · exact h.injOn
+  obtain ⟨tS, h0, h1, hy⟩ := quad_row_root_exists q p.y (by
+    rcases hrow with h | h
+    · exact Or.inl ⟨h.1, h.2.le⟩
+    · exact Or.inr ⟨h.1, h.2.le⟩)
+  refine ⟨tS, h0, h1, hy, ?_, ?_⟩
+  · intro t ht0 ht1 hty
+    exact hinj ⟨ht0, ht1⟩ ⟨h0, h1⟩ (by show (q.eval t).y = (q.eval tS).y; rw [hty, hy])
+  · rw [windingInner_quad_monotone q p tS hsolve hinj h0 h1 hy]
+    congr 1
+    unfold rowSign
+    rcases hrow with h | h
+    · rw [if_pos h, if_pos (by linarith [h.1, h.2])]
+    · rw [if_neg (by rintro ⟨c1, c2⟩; linarith [h.1, h.2]), if_pos h, if_neg (by linarith [h.1, h.2])]
+
+end curvesReal
+end Kurbo
+
+/-! ## non-vacuity: concrete inputs meeting the hypotheses -/
+namespace Kurbo
+namespace C01Examples
+open PathEl
+
+/-- unit square, positive signed area -/
+def sq : List (PathEl Rat) := [MoveTo ⟨0, 0⟩, LineTo ⟨1, 0⟩, LineTo ⟨1, 1⟩, LineTo ⟨0, 1⟩, ClosePath]
+/-- a diamond whose vertices `(±1, 0)` lie on the row `y = 0` of the query point `(0, 0)` -/
+def dia : List (PathEl Rat) := polygon ⟨1, 0⟩ [⟨0, 1⟩, ⟨-1, 0⟩, ⟨0, -1⟩]
+
+-- 1: an edge crossing the row to the left of the point, one to the right, and a point ON an edge
+example : PathSeg.winding_inner (.Line ⟨(⟨0, 1⟩ : Point Rat), ⟨0, 0⟩⟩) ⟨1/2, 1/2⟩ = 1 ∧
+    kc ((⟨0, 1⟩ : Point Rat) - (⟨1/2, 1/2⟩ : Point Rat)) ((⟨0, 0⟩ : Point Rat) - (⟨1/2, 1/2⟩ : Point Rat)) = 1 ∧
+    PathSeg.winding_inner (.Line ⟨(⟨1, 0⟩ : Point Rat), ⟨1, 1⟩⟩) ⟨1/2, 1/2⟩ = 0 ∧
+    PathSeg.winding_inner (.Line ⟨(⟨0, 0⟩ : Point Rat), ⟨2, 2⟩⟩) ⟨1, 1⟩ = -1 := by decide +kernel
+-- 2: hypotheses and values (sign as for the signed area: both positive)
+example : AllLines sq ∧ AllLines dia := by decide
+example : pathWinding sq ⟨1/2, 1/2⟩ = some 1 ∧ pathArea sq = some 1 ∧ pathContains sq ⟨1/2, 1/2⟩ = some true := by
+  decide +kernel
+example : pathWinding sq ⟨3/2, 1/2⟩ = some 0 ∧ pathContains sq ⟨3/2, 1/2⟩ = some false := by decide +kernel
+-- rows through vertices: inside, and outside on either side
+example : pathWinding dia ⟨0, 0⟩ = some 1 ∧ pathWinding dia ⟨2, 0⟩ = some 0 ∧ pathWinding dia ⟨-2, 0⟩ = some 0 := by
+  decide +kernel
+-- additivity (`pathWinding_append`): two sub-paths around the point
+example : (∀ st, segsFrom st sq = segsFrom none sq) := fun st => segsFrom_moveTo_any st _ _
+example : pathWinding (dia ++ sq) ⟨1/4, 1/4⟩ = some 2 := by decide +kernel
+-- reversal (`winding_reverse_polyline`): hypotheses and value
+example : IsBody [LineTo (⟨0, 1⟩ : Point Rat), LineTo ⟨-1, 0⟩, LineTo ⟨0, -1⟩] ∧
+    AllLines [LineTo (⟨0, 1⟩ : Point Rat), LineTo ⟨-1, 0⟩, LineTo ⟨0, -1⟩] := by decide
+example : (reverseSubpaths dia).bind (pathWinding · ⟨0, 0⟩) = some (-1) := by decide +kernel
+-- splitting (`winding_insert_vertex`, `winding_split_line`): the vertex (1/3)(b − a) inserted on the row of the point
+example : (0 : Rat) ≤ 1/3 ∧ (1/3 : Rat) ≤ 1 ∧ (1 : Rat) = 0 + (3 - 0) * (1/3) ∧ (0 : Rat) = -1 + (2 - (-1)) * (1/3) := by
+  norm_num
+example : let a : Point Rat := ⟨0, -1⟩; let m : Point Rat := ⟨1, 0⟩; let b : Point Rat := ⟨3, 2⟩; let p : Point Rat := ⟨2, 0⟩
+    kc (a - p) (m - p) = 0 ∧ kc (m - p) (b - p) = -1 ∧ kc (a - p) (b - p) = -1 := by decide +kernel
+
+-- 6: a quadratic piece with y(t) = t², x(t) = 2t(1−t), the row y = 1/4 (root t = 1/2, curve point x = 1/2), and the
+-- same curve degree-raised to a cubic; all hypotheses of `windingInner_quad_monotone`/`_cubic_monotone` hold
+def qd : QuadBez Rat := ⟨⟨0, 0⟩, ⟨1, 0⟩, ⟨0, 1⟩⟩
+def cb : CubicBez Rat := ⟨⟨0, 0⟩, ⟨2/3, 0⟩, ⟨2/3, 1/3⟩, ⟨0, 1⟩⟩
+example : PathSeg.winding_inner (.Quad qd) ⟨1, 1/4⟩ = -1 ∧ PathSeg.winding_inner (.Quad qd) ⟨1/4, 1/4⟩ = 0 ∧
+    PathSeg.winding_inner (.Cubic cb) ⟨1, 1/4⟩ = -1 ∧ PathSeg.winding_inner (.Cubic cb) ⟨1/4, 1/4⟩ = 0 := by
+  decide +kernel
+example : (0 : Rat) ≤ 1/2 ∧ (1/2 : Rat) ≤ 1 ∧ (qd.eval (1/2)).y = 1/4 ∧ (qd.eval (1/2)).x = 1/2 ∧
+    (cb.eval (1/2)).y = 1/4 ∧ (cb.eval (1/2)).x = 1/2 := by decide +kernel
+example : ∀ x : Rat, x ∈ solveQuadratic (qd.p0.y - 1/4) (2 * (qd.p1.y - qd.p0.y)) (qd.p2.y - 2 * qd.p1.y + qd.p0.y) ↔
+    (qd.p0.y - 1/4) + (2 * (qd.p1.y - qd.p0.y)) * x + (qd.p2.y - 2 * qd.p1.y + qd.p0.y) * x ^ 2 = 0 := by
+  intro x
+  have e : solveQuadratic (qd.p0.y - 1/4) (2 * (qd.p1.y - qd.p0.y)) (qd.p2.y - 2 * qd.p1.y + qd.p0.y)
+      = [-1/2, 1/2] := by decide +kernel
+  rw [e, c01_roots_quarter]
+  simp only [qd]
+  constructor <;> intro h <;> linarith
+example : ∀ x : Rat, x ∈ solveCubic (cb.p0.y - 1/4) (3 * (cb.p1.y - cb.p0.y)) (3 * (cb.p2.y - 2 * cb.p1.y + cb.p0.y))
+      (cb.p3.y - 3 * cb.p2.y + 3 * cb.p1.y - cb.p0.y) ↔
+    (cb.p0.y - 1/4) + (3 * (cb.p1.y - cb.p0.y)) * x + (3 * (cb.p2.y - 2 * cb.p1.y + cb.p0.y)) * x ^ 2
+      + (cb.p3.y - 3 * cb.p2.y + 3 * cb.p1.y - cb.p0.y) * x ^ 3 = 0 := by
+  intro x
+  have e : solveCubic (cb.p0.y - 1/4) (3 * (cb.p1.y - cb.p0.y)) (3 * (cb.p2.y - 2 * cb.p1.y + cb.p0.y))
+      (cb.p3.y - 3 * cb.p2.y + 3 * cb.p1.y - cb.p0.y) = [-1/2, 1/2] := by decide +kernel
+  rw [e, c01_roots_quarter]
+  simp only [cb]
+  constructor <;> intro h <;> linarith
+example : Set.InjOn (fun t => (qd.eval t).y) (Set.Icc 0 1) := by
+  intro s hs t ht h
+  simp only [quad_eval_y_poly, qd] at h
+  have h' : s ^ 2 = t ^ 2 := by linarith
+  exact (pow_left_inj₀ hs.1 ht.1 (by norm_num)).mp h'
+example : Set.InjOn (fun t => (cb.eval t).y) (Set.Icc 0 1) := by
+  intro s hs t ht h
+  simp only [cubic_eval_y_poly, cb] at h
+  have h' : s ^ 2 = t ^ 2 := by linarith
+  exact (pow_left_inj₀ hs.1 ht.1 (by norm_num)).mp h'
+-- `quad_row_poly_nonzero`: the row y = 1/4 meets the piece
+example : qd.p0.y ≤ (1/4 : Rat) ∧ (1/4 : Rat) < qd.p2.y := by decide +kernel
+-- `windingInner_offRow`: the row y = 2 misses the piece
+example : ¬ (((PathSeg.Quad qd).start.y ≤ (2 : Rat)) ∧ (2 : Rat) < (PathSeg.Quad qd).end.y) ∧
+    ¬ (((PathSeg.Quad qd).end.y ≤ (2 : Rat)) ∧ (2 : Rat) < (PathSeg.Quad qd).start.y) := by decide +kernel
+
+-- 3 (ℝ): the diamond and the origin meet the hypotheses of `polygon_winding_eq_angleSum`: the origin is on no edge
+-- although its row passes through two vertices
+section real
+variable [Scalar ℝ] [LawfulScalar ℝ]
+
+example : OffPath (polygon (⟨1, 0⟩ : Point ℝ) [⟨0, 1⟩, ⟨-1, 0⟩, ⟨0, -1⟩]) ⟨0, 0⟩ := by
+  intro ss hss s hs
+  rw [segs_polygon, Option.some.injEq] at hss
+  subst hss
+  simp only [lineChain, List.getLast_cons_cons, List.getLast_singleton, List.cons_append,
+    List.nil_append, List.mem_cons] at hs
+  have key : ∀ a b : Point ℝ, (∀ t : ℝ, 0 = a.x + (b.x - a.x) * t → 0 = a.y + (b.y - a.y) * t → False) →
+      ¬ OnSeg (.Line ⟨a, b⟩) ⟨0, 0⟩ := by
+    intro a b h
+    rw [onSeg_line_iff]
+    rintro ⟨t, _, _, hx, hy⟩
+    exact h t hx hy
+  rcases hs with rfl | rfl | rfl | hs
+  · exact key _ _ (fun t hx hy => by simp only at hx hy; linarith)
+  · exact key _ _ (fun t hx hy => by simp only at hx hy; linarith)
+  · exact key _ _ (fun t hx hy => by simp only at hx hy; linarith)
+  · have hs' := (List.mem_ite_nil_left.mp hs).2
+    rw [List.mem_singleton] at hs'
+    subst hs'
+    exact key _ _ (fun t hx hy => by simp only at hx hy; linarith)
+
+example : ClosedPath (polygon (⟨1, 0⟩ : Point ℝ) [⟨0, 1⟩, ⟨-1, 0⟩, ⟨0, -1⟩]) ∧
+    AllLines (polygon (⟨1, 0⟩ : Point ℝ) [⟨0, 1⟩, ⟨-1, 0⟩, ⟨0, -1⟩]) :=
+  ⟨closedPath_polygon _ _, allLines_polygon _ _⟩
+
+-- `windingInner_quad_monotone_real`: strict monotonicity and the row hypothesis for y(t) = t², row y = 1/4
+example : StrictMonoOn (fun t => ((⟨⟨0, 0⟩, ⟨1, 0⟩, ⟨0, 1⟩⟩ : QuadBez ℝ).eval t).y) (Set.Icc 0 1) := by
+  intro s hs t ht hst
+  simp only [quad_eval_y_poly]
+  have h1 : 0 < t - s := sub_pos.mpr hst
+  have h2 : 0 < t + s := by linarith [hs.1, ht.1]
+  nlinarith [mul_pos h1 h2]
+example : (⟨⟨0, 0⟩, ⟨1, 0⟩, ⟨0, 1⟩⟩ : QuadBez ℝ).p0.y ≤ (1/4 : ℝ) ∧
+    (1/4 : ℝ) < (⟨⟨0, 0⟩, ⟨1, 0⟩, ⟨0, 1⟩⟩ : QuadBez ℝ).p2.y := by norm_num
+
+end real
+end C01Examples
 end Kurbo
